@@ -31,6 +31,7 @@ META = {
 
 
 ZERO_LOST = []
+TRANSFORMED = []
 
 
 def optional_numeric_params(an, cls):
@@ -46,7 +47,7 @@ def optional_numeric_params(an, cls):
         if t == "ANY" or "NoneType" not in t:
             continue
         rest = t - {"NoneType"}
-        if rest and all(x in ("int", "float") for x in rest):
+        if rest and any(x in ("int", "float") for x in rest) and all(x in ("int", "float", "str") for x in rest):
             for x in ast.walk(init.node):
                 if isinstance(x, ast.Assign) and isinstance(x.value, ast.Name) and x.value.id == a.arg:
                     for tg in x.targets:
@@ -59,6 +60,26 @@ def optional_numeric_params(an, cls):
                         if isinstance(tg, ast.Attribute) and isinstance(tg.value, ast.Name) and tg.value.id == init.self_name:
                             out[tg.attr] = a.arg
                             ZERO_LOST.append((init, x, tg.attr, a.arg))
+                # `self.bound = convert(bound)`: the bound that is enforced is not the one that was declared
+                def derived(v):
+                    """v is computed from the parameter (directly, or through locals of an expanded helper) without being it"""
+                    if isinstance(v, ast.Name) and v.id != a.arg:
+                        leaves = value_sources(init, v, None)
+                        if leaves and all((k_ == "param" and p_ == a.arg) or (k_ == "expr" and isinstance(p_, ast.Constant) and p_.value is None) for k_, p_ in leaves):
+                            return False        # a plain copy
+                        for k_, p_ in leaves:
+                            if k_ == "expr" and isinstance(p_, ast.AST) and not isinstance(p_, ast.Constant):
+                                for y in ast.walk(p_):
+                                    if isinstance(y, ast.Name) and (y.id == a.arg or any(k2 == "param" and p2 == a.arg for k2, p2 in value_sources(init, y, None))):
+                                        return True
+                        return False
+                    return not isinstance(v, (ast.Name, ast.BoolOp)) and any(isinstance(y, ast.Name) and y.id == a.arg for y in ast.walk(v))
+                if isinstance(x, ast.Assign) and derived(x.value):
+                    for tg in x.targets:
+                        if isinstance(tg, ast.Attribute) and isinstance(tg.value, ast.Name) and tg.value.id == init.self_name and tg.attr not in out:
+                            out[tg.attr] = a.arg
+                            if not any(e_[1] is x for e_ in TRANSFORMED):
+                                TRANSFORMED.append((init, x, tg.attr, a.arg))
     return out
 
 
@@ -179,6 +200,11 @@ def check_bounds(ctx):
                "`%s`: a bound of 0 is falsy and is replaced by the default when the field is built: %s(%s=0) does not enforce 0" % (
                    ast.unparse(x)[:60], init.cls.name if init.cls else "?", arg))
     del ZERO_LOST[:]
+    for init, x, attr, arg in TRANSFORMED:
+        ctx.ob("bounds.kept-as-given", init, x, False,
+               "%s stores %s as self.%s instead of the %s it was given: the bound that is enforced (and shown) is not the declared one -- "
+               "int(0.5) is 0, so a value below the declared minimum is accepted" % (init.qualname, ast.unparse(x.value)[:40], attr, arg), node=x)
+    del TRANSFORMED[:]
     ctx.need(ninst >= 3, "fewer than 3 bound comparisons discovered (%d)" % ninst)
     # PortField defaults
     pf = model.cls("PortField").methods.get("__init__")
@@ -750,13 +776,20 @@ def check_accepts_own_result(ctx):
                         return False
                     for s_, lbl_ in x.succ:
                         if lbl_ is False:
-                            if s_.kind == "raise" or (s_.kind == "call" and any(y.kind == "raise" for y, _ in s_.succ)):
-                                return True
-                            if is_vtest(s_) and rejecting(s_, depth + 1):
-                                return True
-                            # (the next `elif isinstance(...)`: the call node that evaluates it, then the test)
-                            if s_.kind == "call" and any(is_vtest(y) and rejecting(y, depth + 1) for y, _ in s_.succ):
-                                return True
+                            # straight down from the False outcome: the nodes that evaluate a raise's message or the next
+                            # `elif isinstance(...)`, then the raise / that test
+                            cur, steps = s_, 0
+                            while cur is not None and steps < 12:
+                                if cur.kind == "raise":
+                                    return True
+                                if is_vtest(cur):
+                                    return rejecting(cur, depth + 1)
+                                if cur.kind == "test":
+                                    break
+                                nxt = [y for y, l_ in cur.succ]
+                                if len(nxt) != 1:
+                                    break
+                                cur, steps = nxt[0], steps + 1
                     return False
                 false_raises = rejecting(t)
                 if true_raises:
